@@ -225,6 +225,38 @@ def selfcap_program(where, use, early, sub):
     return prog
 
 
+def initchain_program(has_init, err_base):
+    """a chain of classes L0 < L1 < ... in which every level independently declares an initialiser or not; a declared one chains to the
+    nearest one above by `super.init(...)` (through the levels that only inherit it); every class is constructed, its initialiser
+    is also reached by name (`o.init(..)`, bound `let f = o.init`), optionally on top of a built-in error class"""
+    prog = []
+    prev = err_base
+    n = len(has_init)
+    above = err_base is not None  # an initialiser is visible above level k (built-in Error.init(message))
+    for k in range(n):
+        members = [("method", "who", [], [["return", S("L%d" % k)]])]
+        if has_init[k]:
+            body = []
+            if above:
+                body.append(["expr", ["super", "init", [cat(S("m%d:" % k), V("v"))] if (err_base is not None and not any(has_init[:k])) else [cat(V("v"), S(">%d" % k))]]])
+            body.append(["expr", sset("f%d" % k, cat(S("f%d=" % k), V("v")))])
+            members.insert(0, ("method", "init", ["v"], body))
+            above = True
+        prog.append(["class", "L%d" % k, prev, members])
+        prev = "L%d" % k
+    for k in range(n):
+        visible = (err_base is not None) or any(has_init[:k + 1])
+        args = [S("a%d" % k)] if visible else []
+        o = "o%d" % k
+        shown = [inv(V(o), "who")] + [["get", V(o), "f%d" % j] for j in range(k + 1) if has_init[j]]
+        if err_base is not None:
+            shown.append(["get", V(o), "message"])
+        prog += [["try", [["let", o, call("L%d" % k, *args)], ["print", shown]] +
+                  ([["expr", inv(V(o), "init", S("again"))], ["print", [S("re")] + shown[1:]], ["let", "bi%d" % k, ["get", V(o), "init"]], ["expr", call(V("bi%d" % k), S("bound"))], ["print", [S("bound")] + shown[1:]]] if visible else []),
+                  "e", None, [["print", [S("L%d!" % k), inv(inv(V("e"), "cls"), "name")]]]]]
+    return prog
+
+
 class C03(Check):
     id = "C03"
     level = "exploration"
@@ -244,6 +276,10 @@ class C03(Check):
                     for shape in LV_SHAPES:
                         for compound in (False, True):
                             yield ("lvalue", tuple(of), tuple(inner_fields), sup, shape, compound)
+        for depth in (2, 3, 4):
+            for has_init in itertools.product((False, True), repeat=depth):
+                for err_base in (None,):  # the reference does not model the built-in Error.init as a method reachable by name
+                    yield ("initchain", has_init, err_base)
         for where in ("init", "method"):
             for use in ("field", "call", "chain"):
                 for early in (False, True):
@@ -265,11 +301,15 @@ class C03(Check):
             return factory_program(spec[1], spec[2], spec[3], spec[4])
         if spec[0] == "selfcap":
             return selfcap_program(*spec[1:])
+        if spec[0] == "initchain":
+            return initchain_program(spec[1], spec[2])
         return program(A_INIT[spec[0]], spec[1], B_FIELDS[spec[2]], *spec[3:])
 
     def describe(self, spec):
         if spec[0] == "lvalue":
             return "lvalue shape=%s compound=%s outer fields=%s (super=%s) inner fields=%s" % (spec[4], spec[5], list(spec[1]), spec[3], list(spec[2]))
+        if spec[0] == "initchain":
+            return "initialiser chain: levels with an init of their own=%s on top of %s" % (list(spec[1]), spec[2] or "no base class")
         if spec[0] == "selfcap":
             return "self captured by a closure inside %s, closure %s, early return=%s, subclass=%s" % spec[1:]
         if spec[0] == "factory":
